@@ -978,7 +978,8 @@ fn gen_case(r: &mut Rng) -> Case {
     while ops.len() < nops {
         let s = r.below(ns as u64) as usize;
         let node = r.below(nnodes as u64) as usize;
-        match r.below(20) {
+        let k = if generic && r.chance(1, 4) { 19 } else { r.below(20) };
+        match k {
             0..=10 => {
                 let paged = r.chance(1, 3);
                 ops.push(Op::X {
@@ -1016,6 +1017,9 @@ fn gen_case(r: &mut Rng) -> Case {
             _ => {
                 if generic {
                     ops.push(Op::F { node, resp: gen_forced(r, ext, &stmts, s) });
+                    if r.bool() {
+                        ops.push(Op::F { node, resp: gen_forced(r, ext, &stmts, s) });
+                    }
                 } else {
                     ops.push(Op::E { node, kind: 'e', s, arg: 0 });
                 }
